@@ -72,7 +72,12 @@ def oracle_verdicts(part, cases, impl, shards=C.NPROC):
     read off the observation alone (used only for the search for a failing input)."""
     res = C.run_oracle(part.engine, cases, impl, shards=shards) if part.has_oracle else ["1"] * len(cases)
     if hasattr(part, "py_oracle"):
-        res = [r if not r.startswith("1") else part.py_oracle(c, a) for r, c, a in zip(res, cases, impl)]
+        def safe(c, a):
+            try:
+                return part.py_oracle(c, a)
+            except (IndexError, ValueError, KeyError, TypeError):
+                return "1"        # a malformed (e.g. shrunk) case or observation: no verdict from the scan
+        res = [r if not r.startswith("1") else safe(c, a) for r, c, a in zip(res, cases, impl)]
     if hasattr(part, "batch_oracle"):
         res = part.batch_oracle(cases, impl, res)
     return res
@@ -287,6 +292,10 @@ def main():
         rc = run(a.pid, a.tier, seed, a.replay)
     except C.Broken as e:
         C.log("BROKEN CHECK (not a verdict): %s" % e)
+        sys.exit(2)
+    except Exception:                      # a fault of the machinery itself: never exit 1 without a VIOLATION line
+        import traceback
+        C.log("BROKEN CHECK (not a verdict): " + traceback.format_exc()[-1500:])
         sys.exit(2)
     sys.exit(rc)
 
